@@ -383,6 +383,12 @@ func genC16(r *rand.Rand, tier string, env *Env) []Case {
 			for _, c := range f.cmds(ra) {
 				cases = append(cases, Case{Kind: "fault:" + f.name, Ops: cliCmdOps(ct, c),
 					Oracles: []Op{{"c16.loud", [][]byte{encodeTree(ct.t), []byte(strings.Join(c, "\x00")), []byte(strings.Join(walkOrder(ct.t), "\x00")), []byte(faultyPath)}}}})
+				if chance(r, 0.35) {
+					// the other output mode reports through other code: a failure is a failure there too
+					g := append([]string{"-o", "github"}, c...)
+					cases = append(cases, Case{Kind: "fault:" + f.name,
+						Oracles: []Op{{"c16.loud", [][]byte{encodeTree(ct.t), []byte(strings.Join(g, "\x00")), []byte(strings.Join(walkOrder(ct.t), "\x00")), []byte(faultyPath)}}}})
+				}
 			}
 		}
 	}
@@ -457,6 +463,16 @@ func oracleC08(p *Pair, env *Env, a [][]byte) *Failure {
 			}
 			sort.Strings(ls)
 			return strings.Join(ls, "\n")
+		}
+		// mixed state first: every second rule (in walk order) is brought up to date in both sandboxes, so that
+		// up-to-date rules come after out-of-date ones
+		sorted := append([]string{}, order...)
+		sort.Strings(sorted)
+		for i, arg := range sorted {
+			if i%2 == 1 {
+				runCLI(env, sbAll, nil, "-l", "disabled", "regex", "update", arg)
+				runCLI(env, sbOne, nil, "-l", "disabled", "regex", "update", arg)
+			}
 		}
 		allG := runCLI(env, sbAll, nil, "-l", "disabled", "-o", "github", "regex", "compare", "-a")
 		var singlesG [][]byte
